@@ -3,6 +3,7 @@ from collections.abc import Callable
 
 from pynenc import context
 from pynenc.conf.config_task import ConcurrencyControlType
+from pynenc.exceptions import InvocationStatusError
 from pynenc.invocation.status import InvocationStatus
 
 if TYPE_CHECKING:
@@ -85,11 +86,17 @@ def recover_pending_invocations() -> None:
     invocations_to_reroute: set[InvocationId] = set()
     # Recover PENDING invocations that exceeded timeout
     for invocation_id in app.orchestrator.get_pending_invocations_for_recovery():
-        invocations_to_reroute.add(invocation_id)
         app.logger.info(f"Recovering timed-out pending invocation:{invocation_id}")
-        app.orchestrator.set_invocation_status(
-            invocation_id, InvocationStatus.PENDING_RECOVERY, runner_ctx
-        )
+        try:
+            app.orchestrator.set_invocation_status(
+                invocation_id, InvocationStatus.PENDING_RECOVERY, runner_ctx
+            )
+        except InvocationStatusError as ex:
+            # Lost the race: its owner moved it on since the scan. Skip it, and
+            # still re-queue the invocations already taken by this run.
+            app.logger.info(f"invocation:{invocation_id} no longer needs recovery: {ex}")
+            continue
+        invocations_to_reroute.add(invocation_id)
     app.orchestrator.reroute_invocations(invocations_to_reroute, runner_ctx)
 
 
@@ -103,11 +110,17 @@ def recover_running_invocations() -> None:
     invocations_to_reroute: set[InvocationId] = set()
     # Recover RUNNING invocations owned by inactive runners
     for invocation_id in app.orchestrator.get_running_invocations_for_recovery():
-        invocations_to_reroute.add(invocation_id)
         app.logger.info(
             f"Recovering running invocation:{invocation_id} from inactive runner"
         )
-        app.orchestrator.set_invocation_status(
-            invocation_id, InvocationStatus.RUNNING_RECOVERY, runner_ctx
-        )
+        try:
+            app.orchestrator.set_invocation_status(
+                invocation_id, InvocationStatus.RUNNING_RECOVERY, runner_ctx
+            )
+        except InvocationStatusError as ex:
+            # Lost the race: the invocation moved on since the scan. Skip it, and
+            # still re-queue the invocations already taken by this run.
+            app.logger.info(f"invocation:{invocation_id} no longer needs recovery: {ex}")
+            continue
+        invocations_to_reroute.add(invocation_id)
     app.orchestrator.reroute_invocations(invocations_to_reroute, runner_ctx)
